@@ -46,12 +46,13 @@ theorem pe_reference_is_error (b : CST) (rest : List (Nat × CST)) (h : b.kidsL.
   have h1 : (N.decl_sep == N.markup_decl) = false := by decide
   simp [absIntSubset, h1, h]
 
-/-- hostile shape 2, very deep nesting: no accepted document nests elements deeper than the limit
-    read from the source (`MAX_ELEMENT_DEPTH`), so every recursion over an accepted document is
-    bounded by that constant -/
+/-- hostile shape 2, very deep nesting: no accepted document nests elements, or the groups of a
+    content model, deeper than the limits read from the source (`MAX_ELEMENT_DEPTH`,
+    `MAX_GROUP_DEPTH`), so every recursion over an accepted document is bounded by those constants -/
 theorem depth_refused (ev : Env) (st : Bool) (s : Str) (d : IDoc) (rest : Str)
-    (h : parseDocWith ev st s = .ok (d, rest)) (hlim : maxDepth_element ≠ 0) :
-    ∃ c, c.flatten ++ rest = s ∧ absDocument c = .ok d ∧ c.elemDepth ≤ maxDepth_element := by
+    (h : parseDocWith ev st s = .ok (d, rest)) (hlim : maxDepth_element ≠ 0) (hlim2 : maxDepth_children ≠ 0) :
+    ∃ c, c.flatten ++ rest = s ∧ absDocument c = .ok d ∧ c.elemDepth ≤ maxDepth_element ∧
+      c.ntDepth N.children ≤ maxDepth_children := by
   unfold parseDocWith at h
   split at h
   · cases h
@@ -63,22 +64,29 @@ theorem depth_refused (ev : Env) (st : Bool) (s : Str) (d : IDoc) (rest : Str)
     · next hdepth =>
       split at h
       · cases h
-      · next d' hd2 =>
+      · next hdepth2 =>
         split at h
         · cases h
-        · split at h
+        · next d' hd2 =>
+          split at h
           · cases h
-          · simp only [Except.ok.injEq, Prod.mk.injEq] at h
-            obtain ⟨rfl, rfl⟩ := h
-            refine ⟨c, by simpa [CST.flatten] using hf, hd2, ?_⟩
-            apply Nat.le_of_not_lt
-            intro hgt
-            apply hdepth
-            simp [hlim, hgt]
+          · split at h
+            · cases h
+            · simp only [Except.ok.injEq, Prod.mk.injEq] at h
+              obtain ⟨rfl, rfl⟩ := h
+              refine ⟨c, by simpa [CST.flatten] using hf, hd2, ?_, ?_⟩
+              · apply Nat.le_of_not_lt
+                intro hgt
+                apply hdepth
+                simp [hlim, hgt]
+              · apply Nat.le_of_not_lt
+                intro hgt
+                apply hdepth2
+                simp [hlim2, hgt]
   · cases h
 
-/-- the limit in the current source is a positive constant -/
-theorem depth_limit_present : maxDepth_element ≠ 0 := by decide
+/-- the limits in the current source are positive constants -/
+theorem depth_limit_present : maxDepth_element ≠ 0 ∧ maxDepth_children ≠ 0 := by decide
 
 /-- every outcome of the model is one of the listed classes; there is no `panic` outcome to reach:
     the pipeline is a total function into `Except XErr _` -/
